@@ -9,7 +9,7 @@ struct Ev { int kind; double v; std::vector<double> x; bool in; std::vector<doub
 struct World {
   int C, D, form, update; int n_rng = 0, n_w = 0;
   std::map<std::vector<fpsym_key_t>, int> ids; std::vector<Ev> ev;
-  int idOf(const std::vector<double> &x){ auto k = fpsym_keys(x); auto it = ids.find(k); if (it != ids.end()) return it->second; int n = (int) ids.size(); ids[k] = n; return n; }
+  int idOf(const std::vector<double> &x){ auto k = fpsym_keys(x); auto it = ids.find(k); int n; if (it != ids.end()) n = it->second; else { n = (int) ids.size(); ids[k] = n; } return (int) fpsym_recorded(n); }
   // default values are functions of the coordinates (not of the numbering) so that the plain and the instrumented build agree on them
   static double mix(const std::vector<double> &x){ double s = 0.37; for (size_t d=0;d<x.size();d++) s += (3.7 + d) * fpsym_concrete(x[d]); s = s - std::floor(s); return s; }
   double pdfOf(const std::vector<double> &x){ int id = idOf(x); double m = mix(x); return form == 0 ? fpsym_symbolic(0.1 + 1.5 * m, 2000 + id, 0.05, 2.0) : fpsym_symbolic(-2.0 + 4.0 * m, 2000 + id, -3.0, 3.0); }
